@@ -99,13 +99,15 @@ pub fn check_frame(addr: u16, ty: u8, data: &[u8], rep: &mut Report) {
 
 /// `Data::try_new(n bytes)` is Ok iff n <= 255, and the error reports max = 255 and the real length.
 fn check_try_new(n: usize, rep: &mut Report) {
-    let v = vec![0xA5u8; n];
+    // large blocks are zero-filled (the allocator hands out untouched zero pages, so even 4 GiB costs next to nothing)
+    let v = if n >= 1 << 20 { vec![0u8; n] } else { vec![0xA5u8; n] };
     rep.case(Some(mix(0x7777, n as u64)));
     rep.seen("try_new_lengths", n as u64);
     let sig = format!("try_new:{}", n);
     let r = catch(|| {
         let mut bad = vec![];
-        let results = [("vec", Data::try_new(v.clone())), ("slice", Data::try_new(&v[..]))];
+        let owned = if n >= 1 << 20 { vec![0u8; n] } else { v.clone() };
+        let results = [("vec", Data::try_new(owned)), ("slice", Data::try_new(&v[..]))];
         for (label, r) in results {
             match r {
                 Ok(d) => {
@@ -220,6 +222,25 @@ pub fn run(ctx: &Ctx) -> Outcome {
             for n in (0..=300usize).chain([1000, 70_000]) {
                 check_try_new(n, rep);
             }
+            // lengths around every multiple of 2^8 / 2^16 / 2^24 (and, thorough tier, 2^32): a length that is compared
+            // after being narrowed passes exactly there
+            let mut wraps: Vec<usize> = vec![];
+            let powers: &[u32] = if ctx.quick() { &[8, 16, 24] } else { &[8, 16, 24, 32] };
+            for p in powers {
+                for m in 1..=3usize {
+                    if *p == 32 && m > 1 {
+                        continue;
+                    }
+                    let base = m << p;
+                    wraps.extend([base - 1, base, base + 1, base + 17, base + 255, base + 256]);
+                }
+            }
+            for n in wraps {
+                if n > 300 {
+                    check_try_new(n, rep);
+                    rep.count("try_new_wrap_lengths_tried");
+                }
+            }
             rep.add("sweep_try_new", 1);
         } else {
             let idx = (shard - 260) as u64;
@@ -250,6 +271,7 @@ pub fn run(ctx: &Ctx) -> Outcome {
         floor("all data lengths 0..=255 swept", report.set_len("data_lengths") == 256, report.set_len("data_lengths")),
         floor("single-byte value sweep ran", report.get("sweep_byte_values") == 256, report.get("sweep_byte_values")),
         floor("try_new lengths incl. > 255", report.get("try_new_over_255_tried") >= 47, report.get("try_new_over_255_tried")),
+        floor("try_new lengths around the multiples of 2^8, 2^16, 2^24 (thorough: 2^32)", report.get("try_new_wrap_lengths_tried") >= 40, report.get("try_new_wrap_lengths_tried")),
         floor("frame with address >= 0x8000", report.get("frames_addr_ge_8000") > 0, report.get("frames_addr_ge_8000")),
         floor("frame with 255 data bytes", report.get("frames_len_255") > 0, report.get("frames_len_255")),
         floor("frame with checksum 00", report.get("frames_checksum_00") > 0, report.get("frames_checksum_00")),
